@@ -335,14 +335,18 @@ func runC19() int {
 	if Tier() == "thorough" {
 		pb, db = 2, 3
 	}
-	tot := exploreScenarios(rep, c19Scenarios(u), pb, db, 4000, time.Now().Add(deadlineFor(6*time.Minute, 2*time.Hour)), func(scn, v string, x *verifrt.Execution) string {
+	sigOf := func(scn, v string, x *verifrt.Execution) string {
 		clause := strings.SplitN(v, ":", 2)[0]
 		if clause == "panic" {
 			clause = strings.Join(strings.SplitN(v, ":", 3)[:2], "@")
 		}
 		fam := strings.SplitN(scn, " ", 2)[0]
 		return clause + ":" + fam + ":" + scn
-	})
+	}
+	tot, code := exploreSharded(rep, "C19", c19Scenarios(u), pb, db, 4000, deadlineFor(6*time.Minute, 90*time.Minute), sigOf)
+	if code != 0 {
+		return code
+	}
 	return rep.Finish(tot.coverage(nil))
 }
 
